@@ -945,7 +945,19 @@ func init() {
 	externals["(time.Duration).String"] = func(fr *frame, a []value) value {
 		d, ok := a[0].(int64)
 		if !ok {
-			panic(unsupportedAbort{"Duration.String of symbolic duration"})
+			// symbolic duration: exact for 0 ("0s") and 1..999 ns ("<n>ns"); larger or
+			// negative values need the unit arithmetic of time.Duration.format
+			x, isSym := a[0].(sym)
+			if !isSym {
+				panic(unsupportedAbort{"Duration.String of non-integer"})
+			}
+			if fr.i.ps.decide(sym{kBool, "(= " + x.t + " #x0000000000000000)"}) {
+				return "0s"
+			}
+			if fr.i.ps.decide(sym{kBool, "(bvult " + x.t + " #x00000000000003e8)"}) {
+				return strConcat(fr.i.symFormatInt(sym{kU64, x.t}), "ns")
+			}
+			panic(unsupportedAbort{"Duration.String of symbolic duration outside 0..999ns"})
 		}
 		return time.Duration(d).String()
 	}
